@@ -30,6 +30,7 @@ TYPE_DEFAULT = {'EString': None, 'EInt': 0, 'EBoolean': False, 'EIntegerObject':
 
 def observe(classes, instances, removed_names, E, EcoreUtils, declared=None):
     """-> first problem or None.  instances: list of (object, class); declared: feature name -> default as written"""
+    mutable_seen = {}
     for (o, c) in instances:
         feats = declared_features(c)
         names = {f.name for f in feats}
@@ -53,6 +54,11 @@ def observe(classes, instances, removed_names, E, EcoreUtils, declared=None):
                     want = declared[f.name]
                 if v != want or type(v) is not type(want):
                     return ('default', f'{c.name} instance .{f.name} reads {v!r}, default {want!r}')
+                if isinstance(v, (dict, list)):
+                    # a default that can be changed in place is every instance's own
+                    other = mutable_seen.setdefault((f.name, id(v)), o)
+                    if other is not o:
+                        return ('default-shared', f'two instances read the very same {type(v).__name__} object as the default of .{f.name}')
         for n in removed_names:
             if n in names:
                 continue
@@ -125,6 +131,11 @@ def run_case(ctx, h, nedits, lines=None, reals=None):
             if not many:
                 declared[nm] = TYPE_DEFAULT[t.name]
             return E.EAttribute(nm, t, upper=-1 if many else 1)
+        if k < .38:
+            # a data type whose default is made on demand (a map, a list): an empty one of each instance's own
+            t = rng.choice([E.EStringToStringMapEntry, E.EFeatureMapEntry, E.EDataType(f'L{counter[0]}', instanceClassName='java.util.List')])
+            declared[nm] = [] if t.name.startswith('L') else {}
+            return E.EAttribute(nm, t)
         if k < .5:
             # explicit defaults, falsy ones included, also where the type's own default is something else
             t, dv = rng.choice([(E.EInt, 3), (E.EInt, 0), (E.EString, ''), (E.EString, 'dflt'), (E.EIntegerObject, 0), (E.EIntegerObject, 5),
